@@ -199,6 +199,45 @@ def install(P):
         r.set(pjoin(pstr(r.get()), pstr(c.args[1])))
         return UNIT
 
+    @P.summary("Path::components")
+    def _components(ctx, c):
+        """std's lexical normalisation: repeated separators and a trailing one vanish, `.` survives only as the first component"""
+        from .summ_core import ListIt
+        p = pstr(c.args[0])
+        out = []
+        if p.startswith("/"):
+            out.append(Adt("Component", "RootDir", []))
+        segs = [x for x in p.split("/") if x != ""]
+        for i, x in enumerate(segs):
+            if x == ".":
+                if i == 0 and not p.startswith("/"):
+                    out.append(Adt("Component", "CurDir", []))
+            elif x == "..":
+                out.append(Adt("Component", "ParentDir", []))
+            else:
+                out.append(Adt("Component", "Normal", [x]))
+        return ListIt(out)
+
+    @P.summary("Component::as_os_str")
+    def _comp_str(ctx, c):
+        v = deref(c.args[0])
+        return {"RootDir": "/", "CurDir": ".", "ParentDir": ".."}.get(v.variant) or v.fields[0]
+
+    @P.summary("PathBuf::pop")
+    def _pop(ctx, c):
+        r = c.args[0]
+        while isinstance(r.get(), Ref):
+            r = r.get()
+        p = pstr(r.get())
+        if p in ("/", ""):
+            return False
+        q = p.rstrip("/")
+        if "/" not in q:
+            r.set("")
+        else:
+            r.set(q.rsplit("/", 1)[0] or "/")
+        return True
+
     @P.summary("Path::parent")
     def _parent(ctx, c):
         p = pstr(c.args[0])
@@ -246,11 +285,21 @@ def install(P):
 
     @P.summary("Path::is_absolute", "Path::has_root")
     def _is_abs(ctx, c):
-        return pstr(c.args[0]).startswith("/")
+        return head_lit(c.args[0]).startswith("/")
+
+    def head_lit(v):
+        from .summ_core import flatten_concat
+        v = sval(v)
+        if isinstance(v, str):
+            return v
+        h = flatten_concat(v)[0]
+        if isinstance(h, str) and h:
+            return h                    # the literal head decides absolute/relative
+        raise Unsupported(f"symbolic path {v!r}")
 
     @P.summary("Path::is_relative")
     def _is_rel(ctx, c):
-        return not pstr(c.args[0]).startswith("/")
+        return not head_lit(c.args[0]).startswith("/")
 
     @P.summary("Path::to_str", "OsStr::to_str")
     def _to_str(ctx, c):
